@@ -18,7 +18,7 @@ import z3
 from . import smt
 from .smt import Ctx, fresh_int, fresh_bool, fresh_arr, iv, is_conc_int
 from . import values as V
-from .values import (NONE, VBool, VConst, VDict, VExc, VInt, VList, VNone, VObj, VOpt, VStr, VTuple,
+from .values import (NONE, VBool, VConst, VDict, VExc, VInt, VList, VNone, VObj, VOpt, VStr, VSymCache, VTuple,
                      Unsupported, lit)
 
 REPO = os.environ.get("PYVC_REPO", "/repo")
@@ -54,7 +54,7 @@ class St:
         memo = {}
         s.env = _clone_env(self.env, memo)
         s.ctx = self.ctx.copy()
-        for attr in ("memo", "dec_apps", "opaque", "fn_apps"):
+        for attr in ("memo", "dec_apps", "opaque", "fn_apps", "lt_apps", "lt_strs", "hash_apps"):
             if hasattr(self.ctx, attr):
                 val = getattr(self.ctx, attr)
                 setattr(s.ctx, attr, dict(val) if isinstance(val, dict) else list(val))
@@ -125,6 +125,14 @@ def _clone(v, memo):
         return n
     if isinstance(v, VTuple):
         return VTuple([_clone(x, memo) for x in v.items])
+    if isinstance(v, VSymCache):
+        if id(v) in memo:
+            return memo[id(v)]
+        n = VSymCache(None, v.removed, {})
+        memo[id(v)] = n
+        n.owner = _clone(v.owner, memo)
+        n.extra = {k: _clone(x, memo) for k, x in v.extra.items()}
+        return n
     return v
 
 
@@ -395,7 +403,7 @@ class Executor:
         identity: the same pair of objects always merges into the same object)"""
         if a is b:
             return a
-        if isinstance(a, (VObj, VDict, VList)):
+        if isinstance(a, (VObj, VDict, VList, VSymCache)):
             hm = getattr(ctx, "heap_merge", None)
             if hm is None:
                 hm = ctx.heap_merge = {}
@@ -456,6 +464,10 @@ class Executor:
             return VDict({k: self.merge_value(c, a.d[k], b.d[k], ctx) for k in a.d}, a.fresh)
         if isinstance(a, VObj) and isinstance(b, VObj) and a.cls == b.cls and a.fields.keys() == b.fields.keys():
             return VObj(a.cls, {k: self.merge_value(c, a.fields[k], b.fields[k], ctx) for k in a.fields}, a.fresh and b.fresh)
+        if isinstance(a, VSymCache) and isinstance(b, VSymCache) and a.removed == b.removed and a.extra.keys() == b.extra.keys():
+            n = VSymCache(self.merge_value(c, a.owner, b.owner, ctx), a.removed,
+                          {k: self.merge_value(c, a.extra[k], b.extra[k], ctx) for k in a.extra})
+            return n
         if isinstance(a, VConst) and isinstance(b, VConst) and a.obj is b.obj:
             return a
         if isinstance(a, VExc) and isinstance(b, VExc) and a.cls is b.cls:
@@ -495,7 +507,7 @@ class Executor:
                 for w in lst:
                     if not any(w is x for x in tgt):
                         tgt.append(w)
-        for attr in ("dec_apps", "fn_apps"):
+        for attr in ("dec_apps", "fn_apps", "lt_apps", "lt_strs", "hash_apps"):
             apps = list(getattr(s1.ctx, attr, []) or [])
             for x in getattr(s2.ctx, attr, []) or []:
                 if not any(x is y for y in apps):
@@ -884,15 +896,19 @@ class Executor:
             # try the non-forking combination when both sides are plain booleans
             if isinstance(v, VBool):
                 s2.guards.append(t if is_and else z3.Not(t))
+                nob = len(self.obligations)
                 try:
                     outs = list(self.boolop(e, vals, i + 1, s2))
+                except Unsupported:
+                    outs = []
                 finally:
                     s2.guards.pop()
+                if not (len(outs) == 1 and isinstance(outs[0][0], VBool) and outs[0][1] is s2):
+                    del self.obligations[nob:]
                 if len(outs) == 1 and isinstance(outs[0][0], VBool) and outs[0][1] is s2:
                     r = outs[0][0].t
                     yield VBool(z3.And(t, r) if is_and else z3.Or(t, r)), s2
                     continue
-                raise Unsupported(f"boolean operator with forking operand at {self.where(e)}")
             for b, s3 in self.branch(s2, t):
                 if b == is_and:
                     yield from self.boolop(e, vals, i + 1, s3)
@@ -932,6 +948,21 @@ class Executor:
             if self.is_char(l) and self.is_char(r):
                 a, b = self.char_code(l), self.char_code(r)
                 return {ast.Lt: a < b, ast.LtE: a <= b, ast.Gt: a > b, ast.GtE: a >= b}[type(op)]
+            lt, gt = V.str_lt(st.ctx, l, r), V.str_lt(st.ctx, r, l)
+            return {ast.Lt: lt, ast.LtE: z3.Not(gt), ast.Gt: gt, ast.GtE: z3.Not(lt)}[type(op)]
+        if isinstance(l, VTuple) and isinstance(r, VTuple) and len(l.items) == len(r.items):
+            # lexicographic comparison of tuples
+            strict = isinstance(op, (ast.Lt, ast.Gt))
+            less = isinstance(op, (ast.Lt, ast.LtE))
+            alts = []
+            prefix = []
+            for a, b in zip(l.items, r.items):
+                c = self.compare(st, ast.Lt() if less else ast.Gt(), a, b, node)
+                alts.append(z3.And(prefix + [c]))
+                prefix = prefix + [self.equal(st, a, b)]
+            if not strict:
+                alts.append(z3.And(prefix))
+            return z3.Or(alts)
         raise Unsupported(f"comparison {type(op).__name__} on {l!r}, {r!r}")
 
     def is_char(self, s):
@@ -1182,6 +1213,19 @@ class Executor:
                     if kind == "raise":
                         yield Raised(VExc(IndexError)), s2
             return
+        if isinstance(base, VSymCache) and isinstance(idx, VStr) and idx.conc is not None:
+            from . import lib
+            if idx.conc in base.extra:
+                yield base.extra[idx.conc], st
+                return
+            for v, s2 in lib.symcache_lookup(self, st, base, idx.conc, node):
+                if v is None:
+                    for kind, s3 in self.raise_or_oblige(s2, KeyError, z3.BoolVal(False), "key-present", node):
+                        if kind == "raise":
+                            yield Raised(VExc(KeyError)), s3
+                else:
+                    yield v, s2
+            return
         if isinstance(base, VDict):
             if isinstance(idx, VStr) and idx.conc is not None:
                 if idx.conc in base.d:
@@ -1212,6 +1256,9 @@ class Executor:
         if clsname == "URL":
             import yarl._url
             return yarl._url.URL
+        if clsname == "U":
+            from contracts.spec_url import U
+            return U
         raise Unsupported(f"class {clsname}")
 
     def class_modsrc(self, clsname):
@@ -1263,7 +1310,7 @@ class Executor:
             if m is not None:
                 return m
             raise Unsupported(f"attribute {name} of {base.cls}")
-        if isinstance(base, (VStr, VList, VDict, VTuple)):
+        if isinstance(base, (VStr, VList, VDict, VTuple, VSymCache)):
             return BoundMethod(base, name)
         if isinstance(base, VConst):
             try:
@@ -1637,7 +1684,10 @@ class Executor:
             base, _ = self.eval1(tgt.value, st)
             idx, _ = self.eval1(tgt.slice, st)
             self.check_frame(st, base, tgt)
-            if isinstance(base, VDict) and isinstance(idx, VStr) and idx.conc is not None:
+            if isinstance(base, VSymCache) and isinstance(idx, VStr) and idx.conc is not None:
+                base.extra[idx.conc] = v
+                base.removed.discard(idx.conc)
+            elif isinstance(base, VDict) and isinstance(idx, VStr) and idx.conc is not None:
                 base.d[idx.conc] = v
             elif isinstance(base, VList) and isinstance(idx, VInt) and idx.conc() is not None:
                 ci = idx.conc()
